@@ -16,7 +16,21 @@ property statement:
 
 valid_kv (DESIGN.md section 4) is the precondition everywhere: non-decreasing, interior multiplicity <= p,
 U[p] < U[n]; clamped (end multiplicity p+1) and unclamped (simple end knots) families, every multiplicity pattern
-of the interior knots through shapes.compositions."""
+of the interior knots through shapes.compositions.
+
+Shape families (inside one shape every knot / parameter value is covered, nothing is sampled):
+  span search, multiplicity   quick p = 1..4 with <= 2 interior knots (span search, p <= 3: <= 4), thorough p = 1..7 with
+                              <= 4 (span search, p <= 3: <= 6); symbolic end knots; u anywhere in the closed domain,
+                              x anywhere in [U[0], U[-1]]
+  basis functions             quick p = 1..4 clamped (normalised, symbolic interior knots) and p = 1..3 unclamped (every
+                              knot symbolic), n = p+1..p+3; thorough adds n = p+4 for p <= 4, p = 5, 6 clamped with <= 2
+                              interior symbols and p = 4 unclamped; per span the parameter is pinned on the left knot /
+                              strictly inside / on the domain end (three instances instead of forks)
+  derivative orders           0..p in basis_ders, p+1 and p+2 in basis_ders_above_degree
+
+Two contracts are refuted by the pinned tree (reported, see known findings): basis_ders_above_degree (IndexError
+for order > degree in both derivative functions) and basis_ders_at_end on clamped vectors (basis_function_ders_one
+returns 0 instead of 1 for the last basis function at u = U[-1])."""
 from fractions import Fraction
 
 from .api import scenario
@@ -171,12 +185,13 @@ def _basis_shapes(tier):
     return out
 
 
-def _nonneg_posed(p, clamped, where):
+def _nonneg_posed(p, mult, clamped, where):
     """N[r] >= 0 is posed as the division-free polynomial inequality numerator(N[r]) >= 0 to z3/nlsat.  It is decided
-    on every shape of both tiers except the fully symbolic unclamped quartic with u strictly inside a span (9 to 11
-    symbols, degree 4: unknown after 20 s); there the obligation is not posed (equality with the Cox-de Boor recursion
-    and the sum are still proved on that shape)."""
-    return clamped or p <= 3 or where != 'open'
+    on every shape of both tiers (up to degree 6) except quartics with u strictly inside a span and many symbols:
+    the fully symbolic unclamped quartic (9 to 11 symbols) and the clamped quartic with 3 interior symbols (middle
+    spans) come back unknown after 20 s.  On those shapes the obligation is not posed; equality with the Cox-de Boor
+    recursion and the sum are still proved there, and non-negativity is proved for u on a knot / the domain end."""
+    return where != 'open' or p <= 3 or (clamped and len(mult) <= 2)
 
 
 @scenario('C03', fns=['helpers.basis_function', 'helpers.basis_function_one', 'helpers.basis_function_all',
@@ -187,7 +202,7 @@ def basis_values(ctx, p, mult, clamped, j, where):
                 u in the j-th non-empty interval of the domain: on its left knot / strictly inside / (last interval)
                 on the domain end;  span = span of u
        ensures  N = basis_function(p, U, span, u):  N[r] == Cox-de Boor B(span-p+r, p)(u);  sum N == 1;
-                N[r] >= 0 (posed on every shape except unclamped p = 4 with u strictly inside, see _nonneg_posed);
+                N[r] >= 0 (posed on every shape except two quartic families with u strictly inside, see _nonneg_posed);
                 basis_function_one(p, U, i, u) == N[i-span+p] for span-p <= i <= span and == 0 for every other i < n;
                 basis_function_all(...)[j][i] == B(span-i+j, i)(u) for j <= i <= p;  basis_function_ders(..., 0)[0] == N;
                 basis_functions(p, U, [span, span0], [u, start]) == [N, basis_function at the domain start]"""
@@ -205,7 +220,7 @@ def basis_values(ctx, p, mult, clamped, j, where):
     for r in range(p + 1):
         tot = tot + N[r]
     ctx.check_eq('sum_to_one', tot, 1)
-    if _nonneg_posed(p, clamped, where):
+    if _nonneg_posed(p, mult, clamped, where):
         for r in range(p + 1):
             ctx.check('nonneg[%d]' % r, _le(ctx, 0, N[r]), nonlinear=True)
     # single-function variant, every control-point index
@@ -237,14 +252,18 @@ def basis_values(ctx, p, mult, clamped, j, where):
 
 def _ders_shapes(tier):
     """the basis_values shapes below the domain end; one = the agreement with basis_function_ders_one is part of the
-    instance (its zero-detection branches on derivative values multiply the paths: from degree 5 on only for the
-    small shapes)"""
+    instance (its zero-detection branches on derivative values multiply the paths and are polynomial zero tests for
+    the solver: clamped from degree 5 on only with <= 1 interior symbol (degree 6: none), unclamped degree 4 only with
+    u on a knot)"""
     out = []
     for d in _basis_shapes(tier):
         if d['where'] == 'end':
             continue
         p, k = d['p'], len(d['mult'])
-        one = p <= 4 or (p == 5 and k <= 1) or (p == 6 and k == 0)
+        if d['clamped']:
+            one = p <= 4 or (p == 5 and k <= 1) or (p == 6 and k == 0)
+        else:
+            one = p <= 3 or d['where'] == 'knot'
         out.append(dict(d, one=one))
     return out
 
